@@ -93,6 +93,10 @@ func infoFromCell(cell *hrpc.Cell) (hrpc.RegionInfo, error) {
 	if magic != pbufMagic {
 		return nil, fmt.Errorf("invalid magic number in %q", cell)
 	}
+	if bytes.Count(cell.Row, []byte{','}) < 2 {
+		// the key of a region's row in meta is the region name: table,startkey,id
+		return nil, fmt.Errorf("malformed region name in %q", cell)
+	}
 	var regInfo pb.RegionInfo
 	err := proto.Unmarshal(value[4:], &regInfo)
 	if err != nil {
